@@ -18,6 +18,9 @@ func init() {
 			a.retireOrder("S.retire-order")
 			a.c04Split("P.nul-split")
 			a.acceptPathErrorTable("P.accept-errors")
+			a.c10Text("K.text")
+			a.narrowings("U.narrow", false)
+			a.heartbeatOrder("V.heartbeat-order")
 			a.c18SendDispatch("P.send-dispatch")
 			a.c14Sender()
 			a.c14Predicates()
